@@ -112,6 +112,8 @@ fn np<T>(f: impl FnOnce() -> T) -> T {
 struct Cx<'tcx> {
     tcx: TyCtxt<'tcx>,
     krate: String,
+    // promoted constants of the body being printed that are `&Enum::UnitVariant`: index -> (adt path, variant name, variant index)
+    promoted_units: std::cell::RefCell<std::collections::HashMap<usize, (String, String, usize)>>,
 }
 
 impl<'tcx> Cx<'tcx> {
@@ -260,6 +262,11 @@ impl<'tcx> Cx<'tcx> {
                 o.s("item", &self.path(u.def));
             } else {
                 o.b("promoted", true);
+                if let Some(pi) = u.promoted {
+                    if let Some((adt, vn, vi)) = self.promoted_units.borrow().get(&pi.as_usize()) {
+                        o.s("promoted_adt", adt).s("promoted_variant", vn).n("promoted_vidx", *vi as i128);
+                    }
+                }
             }
         }
         let is_strlike = match t.kind() {
@@ -663,6 +670,39 @@ impl<'tcx> Cx<'tcx> {
         let steal = &tcx.mir_promoted(def).0;
         let body = steal.borrow();
         let body: &Body<'tcx> = &body;
+        {
+            // `&Enum::UnitVariant` promoted to a constant (the right-hand side of `x == Enum::UnitVariant`)
+            let mut pu = self.promoted_units.borrow_mut();
+            pu.clear();
+            let promoted = tcx.mir_promoted(def).1.borrow();
+            for (pi, pb) in promoted.iter_enumerated() {
+                let mut units = vec![];
+                let mut other = 0;
+                for bb in pb.basic_blocks.iter() {
+                    for st in bb.statements.iter() {
+                        if let StatementKind::Assign(bx) = &st.kind {
+                            match &bx.1 {
+                                Rvalue::Aggregate(ak, ops) => {
+                                    if let AggregateKind::Adt(did, vidx, _, _, _) = **ak {
+                                        let adt = tcx.adt_def(did);
+                                        if adt.is_enum() && ops.is_empty() {
+                                            units.push((self.path(did), adt.variant(vidx).name.as_str().to_string(), vidx.as_usize()));
+                                            continue;
+                                        }
+                                    }
+                                    other += 1;
+                                }
+                                Rvalue::Ref(..) => {}
+                                _ => other += 1,
+                            }
+                        }
+                    }
+                }
+                if units.len() == 1 && other == 0 {
+                    pu.insert(pi.as_usize(), units.pop().unwrap());
+                }
+            }
+        }
         let env = TypingEnv::post_analysis(tcx, tcx.typeck_root_def_id(did));
 
         let mut o = Obj::new();
@@ -914,7 +954,7 @@ impl Callbacks for Facts {
             Err(_) => return Compilation::Continue,
         };
         let krate = tcx.crate_name(LOCAL_CRATE).to_string();
-        let cx = Cx { tcx, krate: krate.clone() };
+        let cx = Cx { tcx, krate: krate.clone(), promoted_units: Default::default() };
 
         let mut bodies = vec![];
         let mut names = vec![];
